@@ -27,7 +27,8 @@ META = {
 CLOSURES = {'PY': ('PercusYevick', 'PY'), 'HNC': ('HyperNettedChain', 'HNC'),
             'MSA': ('MeanSphericalApproximation', 'MSA'), 'MS': ('MartynovSarkisov', 'MS')}
 GAMMAS = [-1e3, -2.0, -1.0, -0.5, -4e-3, 0.0, 1e-3, 0.5, 1.0, 3.0, 40.0, 1e3]
-US = [-2.0, -0.3, -1e-3, 0.0, 2e-3, 0.3, 2.0, 1e6]
+US = [-2.0, -0.3, -1e-3, -7e-4, 0.0, 3e-4, 2e-3, 0.3, 2.0, 1e6]
+U_INF = float('inf')          # HardSphere(high_value=np.inf) is a legal hard core; used for every closure except MS (K1 expression is NaN there)
 SIGMAS = [1.0, 1.3, 0.75]
 DR = 0.1
 EPS = np.finfo(float).eps
@@ -63,6 +64,10 @@ def tol_for(cname, g, u, val):
 
 
 def same(a, b, tol):
+    if a == b:
+        return True
+    if math.isnan(tol):
+        tol = 0.0
     if math.isnan(a) or math.isnan(b):
         return math.isnan(a) and math.isnan(b)
     if math.isinf(a) or math.isinf(b):
@@ -99,7 +104,8 @@ def case_product(rec, c):
             return
         raise
     pos = positions(sigma)
-    combos = list(itertools.product(range(len(pos)), GAMMAS, US))
+    us = US + ([U_INF] if cname != 'MS' else [])
+    combos = list(itertools.product(range(len(pos)), GAMMAS, us))
     r = np.array([pos[p][1] for p, _, _ in combos])
     gam = np.array([g for _, g, _ in combos])
     u = np.array([uu for _, _, uu in combos])
